@@ -272,7 +272,7 @@ def trunc(F, R, I, backend):
         before = len(D.roots_run)
         D.run_root(f, ov, check_ret=False)
         n_fn += len(D.roots_run) - before
-    R.floor("C01.trunc", I("limb kernels / repacking functions analysed"), n_fn, 12 if backend == "u32" else 20)
+    R.floor("C01.trunc", I("limb kernels / repacking functions analysed"), n_fn, 12)
     n = 0
     for (fk, line, k), (oper, val) in sorted(D.ip.trunc_log.items(), key=lambda x: (x[0][0], x[0][2], x[0][1])):
         f = F.fns.get(fk)
